@@ -25,7 +25,8 @@ TypePartners == Partners \o << Txt(<<49, 47, 49, 47>> \o [i \in 1..20 |-> 57]), 
                                Txt(<<49, 101, 57, 57, 57>>) >>                        \* 1e999
 NT == Len(TypePartners)
 \* the information functions report the type without altering it: text that SPELLS a logical value or a number is text
-InfoPartners == Partners \o << Txt(TRUEcodes), Txt(<<102, 97, 108, 115, 101>>), Txt(<<49, 101, 51>>), Whole(1), Bool(FALSE) >>     \* TRUE  false  1e3  1  FALSE
+InfoPartners == Partners \o << Txt(TRUEcodes), Txt(<<102, 97, 108, 115, 101>>), Txt(<<49, 101, 51>>), Whole(1), Bool(FALSE),
+                               Txt(<<35, 78, 47, 65>>), Txt(<<35, 110, 47, 97>>), Txt(<<35, 68, 73, 86, 47, 48, 33>>) >>     \* TRUE  false  1e3  1  FALSE  and TEXTS that spell error codes: #N/A  #n/a  #DIV/0!
 
 C(f, a) == [f |-> f, args |-> a]
 
